@@ -130,7 +130,14 @@ pub enum StepRes {
     Panic(String),
 }
 
+pub fn step_name_pub(s: &RStep) -> String {
+    step_name(s)
+}
+
 impl StepRes {
+    pub fn class_pub(&self) -> String {
+        self.class()
+    }
     fn class(&self) -> String {
         match self {
             StepRes::Read(b) => format!("Ok(read {})", b.len()),
